@@ -1,6 +1,159 @@
+(** C06 -- Task lifecycle: forward-only status, stable result, precise cancellation.
+    Model: theories/TaskProto.v (one task, nondeterministic environment and payload),
+    proofs: theories/TaskProtoProps.v.  All statements range over every reachable state / every
+    sequence of transitions (no bound on the number of cancels, awaiters, suspensions). *)
 From Coq Require Import List ZArith Bool Lia String.
-From Usim Require Import Tables TaskProto.
+From Usim Require Import Tables TaskProto TaskProtoProps.
 From UsimGen Require Import Generated GeneratedProps.
+Import ListNotations.
+Open Scope Z_scope.
+
+(** the TaskState enum regenerated from usim/_primitives/task.py is the one the model uses *)
 Theorem taskstate_table : gen_taskstate = model_taskstate.
 Proof. exact taskstate_agrees. Qed.
 Print Assumptions taskstate_table.
+
+Theorem status_in_table : forall st, In (status_name st, status_code_str st) gen_taskstate.
+Proof. exact TaskProtoProps.status_in_table. Qed.
+Print Assumptions status_in_table.
+
+(** the invariant holds in every reachable state *)
+Theorem reachable_inv : forall s, reachable s -> Inv s.
+Proof. exact TaskProtoProps.reachable_inv. Qed.
+Print Assumptions reachable_inv.
+
+(** 1. status: one step keeps it or moves it strictly forward out of a non-final state *)
+Theorem status_step : forall s o s', Inv s -> step s o = Some s' ->
+  status_of s' = status_of s \/
+  (terminal (status_of s) = false /\ (rank (status_of s) < rank (status_of s'))%nat).
+Proof. exact TaskProtoProps.status_step. Qed.
+Print Assumptions status_step.
+
+Theorem status_forward_only : forall ops s s', Inv s -> run s ops = Some s' ->
+  (rank (status_of s) <= rank (status_of s'))%nat /\
+  (terminal (status_of s) = true -> status_of s' = status_of s).
+Proof. exact TaskProtoProps.status_forward_only. Qed.
+Print Assumptions status_forward_only.
+
+(** 2. Done.__set_done__ is called at most once, its assertion never trips *)
+Theorem done_once : forall s, reachable s ->
+  assert_failed s = false /\ (done_sets s <= 1)%nat /\ (done s = true <-> done_sets s = 1%nat).
+Proof. exact TaskProtoProps.done_once. Qed.
+Print Assumptions done_once.
+
+(** 3. the outcome never changes once the task is done *)
+Theorem result_stable_after_done : forall ops s s', Inv s -> done s = true -> run s ops = Some s' ->
+  result s' = result s /\ done s' = true.
+Proof. exact TaskProtoProps.result_stable_after_done. Qed.
+Print Assumptions result_stable_after_done.
+
+(** 4. every completed await -- before or after completion, any number -- read the stored outcome *)
+Theorem await_reads_result : forall s a s', step s (AwaitComplete a) = Some s' ->
+  done s = true /\ observed s' = (a, result s) :: observed s /\ result s' = result s.
+Proof. exact TaskProtoProps.await_reads_result. Qed.
+Print Assumptions await_reads_result.
+
+Theorem awaiters_agree : forall s, reachable s ->
+  forall a o, In (a, o) (observed s) -> o = result s /\ exists r, o = Some r.
+Proof. exact TaskProtoProps.awaiters_agree. Qed.
+Print Assumptions awaiters_agree.
+
+Theorem awaiters_agree_forever : forall ops s s' a o, reachable s -> In (a, o) (observed s) ->
+  run s ops = Some s' -> In (a, o) (observed s') /\ o = result s'.
+Proof. exact TaskProtoProps.awaiters_agree_forever. Qed.
+Print Assumptions awaiters_agree_forever.
+
+Theorem await_completes_when_done : forall s a, done s = true -> In a (waiting s) ->
+  exists s', step s (AwaitComplete a) = Some s'.
+Proof. exact TaskProtoProps.await_completes_when_done. Qed.
+Print Assumptions await_completes_when_done.
+
+(** 5. cancelled before the first activation: TaskCancelled(task, tok) at once, and no payload code
+    ever runs, whatever happens afterwards *)
+Theorem cancel_created_runs_nothing : forall s tok, reachable s ->
+  phase_of s = Created -> result s = None ->
+  exists s1, step s (Cancel tok) = Some s1 /\
+    result s1 = Some (Error (ECancelled tok)) /\ done s1 = true /\ status_of s1 = StCancelled /\
+    forall ops s2, run s1 ops = Some s2 ->
+      ran s2 = false /\ result s2 = Some (Error (ECancelled tok)) /\ ~ In true (reports s2).
+Proof. exact TaskProtoProps.cancel_created_runs_nothing. Qed.
+Print Assumptions cancel_created_runs_nothing.
+
+Theorem cancelled_created_first_activation : forall s d r s', reachable s ->
+  phase_of s = Created -> result s <> None -> step s (Start d r) = Some s' ->
+  r = RNone /\ phase_of s' = Finished /\ reports s' = [false] /\ ran s' = false /\
+  result s' = result s /\ done_sets s' = done_sets s.
+Proof. exact TaskProtoProps.cancelled_created_first_activation. Qed.
+Print Assumptions cancelled_created_first_activation.
+
+(** 6. cancelling a started, unfinished task *)
+Theorem cancel_schedules_now : forall s tok, result s = None -> phase_of s <> Created ->
+  step s (Cancel tok) = Some (set_pending s (pending s ++ [(tok, now s)])%list).
+Proof. exact TaskProtoProps.cancel_schedules_now. Qed.
+Print Assumptions cancel_schedules_now.
+
+Theorem pending_same_step : forall s, reachable s ->
+  forall tok t, In (tok, t) (pending s) -> t = now s.
+Proof. exact TaskProtoProps.pending_same_step. Qed.
+Print Assumptions pending_same_step.
+
+Theorem no_tick_while_pending : forall s, pending s <> [] -> step s Tick = None.
+Proof. exact TaskProtoProps.no_tick_while_pending. Qed.
+Print Assumptions no_tick_while_pending.
+
+Theorem deliver_enabled : forall s tok t, reachable s -> In (tok, t) (pending s) ->
+  exists s', step s (Deliver tok (match phase_of s with Delaying => RNone | _ => RPropagate end)) = Some s'.
+Proof. exact TaskProtoProps.deliver_enabled. Qed.
+Print Assumptions deliver_enabled.
+
+Theorem cancel_suspended_same_step : forall s tok r s', reachable s ->
+  step s (Deliver tok r) = Some s' ->
+  (exists t, In (tok, t) (pending s) /\ t = now s /\ now s' = now s) /\
+  ((phase_of s = Suspended /\ r = RPropagate) \/ phase_of s = Delaying ->
+   result s' = Some (Error (ECancelled tok)) /\ done s' = true /\ status_of s' = StCancelled /\
+   reports s' = [false] /\ pending s' = [] /\ phase_of s' = Finished /\ ran s' = ran s).
+Proof. exact TaskProtoProps.cancel_suspended_same_step. Qed.
+Print Assumptions cancel_suspended_same_step.
+
+Theorem first_cancellation_wins : forall s tok ops s', reachable s ->
+  result s = Some (Error (ECancelled tok)) -> run s ops = Some s' ->
+  result s' = Some (Error (ECancelled tok)).
+Proof. exact TaskProtoProps.first_cancellation_wins. Qed.
+Print Assumptions first_cancellation_wins.
+
+(** 7. cancelling a finished task does nothing at all *)
+Theorem cancel_finished_noop : forall s tok, result s <> None -> step s (Cancel tok) = Some s.
+Proof. exact TaskProtoProps.cancel_finished_noop. Qed.
+Print Assumptions cancel_finished_noop.
+
+(** 8. the parent is told failed=True only for a genuine exception of the payload, and exactly once *)
+Theorem report_step : forall s o s', Inv s -> step s o = Some s' ->
+  reports s' = reports s \/ (exists b, reports s' = b :: reports s /\ (b = true -> genuine o)).
+Proof. exact TaskProtoProps.report_step. Qed.
+Print Assumptions report_step.
+
+Theorem cancel_never_fails_parent : forall s, reachable s ->
+  (forall tok s', step s (Cancel tok) = Some s' -> reports s' = reports s) /\
+  (reports s = [] /\ phase_of s <> Finished \/
+   reports s = [false] /\ phase_of s = Finished \/
+   reports s = [true] /\ phase_of s = Finished /\ exists e c, result s = Some (Error (ERaised e c))) /\
+  (forall x, result s = Some (Error (ECancelled x)) \/ result s = Some (Error (EClosed x)) \/
+             result s = Some (Value x) -> ~ In true (reports s)).
+Proof. exact TaskProtoProps.cancel_never_fails_parent. Qed.
+Print Assumptions cancel_never_fails_parent.
+
+(** the hypotheses are satisfiable: concrete histories of the model *)
+Example cancel_while_suspended_example :
+  option_map project
+    (run init [Start false RSuspend; AwaitStart 1; Cancel 7; Cancel 8; Deliver 7 RPropagate;
+               AwaitComplete 1; Tick; AwaitStart 2; AwaitComplete 2; Cancel 9])
+  = Some [4; 2; 7; 1; 1; 1; 1; 0; 2; 2; 7].
+Proof. exact TaskProtoProps.cancel_while_suspended. Qed.
+
+Example cancel_before_start_example :
+  option_map project (run init [AwaitStart 1; Cancel 3; Start false RNone; AwaitComplete 1])
+  = Some [4; 2; 3; 1; 1; 0; 1; 0; 1; 2; 3].
+Proof. exact TaskProtoProps.cancel_before_start. Qed.
+
+Example reachable_suspended_example : exists s, reachable s /\ phase_of s = Suspended /\ result s = None.
+Proof. exact TaskProtoProps.reachable_suspended. Qed.
